@@ -1217,7 +1217,7 @@ def unit_worlds(ctx):
                 def setup():
                     r = w.server.setup_assertion({"class_ref": PASSWORD, "authn_auth": "x"}, eid, "req-1", eid + "/acs",
                                                  saml.NameID(text="s", format=saml.NAMEID_FORMAT_PERSISTENT),
-                                                 w.server.config.getattr("policy", "idp"), w.server._issuer(), None,
+                                                 w.server.config.getattr("policy", "idp"), env.issuer_of(w.server), None,
                                                  copy.deepcopy(ident), be, False)
                     if isinstance(r, saml.Assertion):
                         out = {}
@@ -1321,7 +1321,7 @@ def replay(ctx, payload):
             def setup():
                 r = w.server.setup_assertion({"class_ref": PASSWORD, "authn_auth": "x"}, inp["sp"], "req-1", inp["sp"] + "/acs",
                                              saml.NameID(text="s", format=saml.NAMEID_FORMAT_PERSISTENT),
-                                             w.server.config.getattr("policy", "idp"), w.server._issuer(), None,
+                                             w.server.config.getattr("policy", "idp"), env.issuer_of(w.server), None,
                                              copy.deepcopy(inp["identity"]), bool(inp.get("best_effort")), False)
                 if isinstance(r, saml.Assertion):
                     out = {}
